@@ -366,6 +366,13 @@ func sealedApis(kind, alg, ns string) string {
 			if _, c4, err := token.FromSealed(b2); err != nil || c4 != c2 {
 				return fmt.Sprintf("ToSealed (call %d on one token): FromSealed reports another cid for the same bytes (%v)", r+1, err)
 			}
+			// the caller does what it likes with the bytes it was given (here: wipes them): the next sealing is not affected
+			for i := range b2 {
+				b2[i] = 0
+			}
+			for i := range w2.Bytes() {
+				w2.Bytes()[i] = 0xff
+			}
 		}
 	}
 	if sigDeterministic(alg) && !bytes.Equal(buf.Bytes(), b) {
